@@ -370,8 +370,8 @@ impl World for C18 {
 
     fn random_runs(&self, tier: Tier) -> u64 {
         match tier {
-            Tier::Quick => 400_000,
-            Tier::Thorough => 12_000_000,
+            Tier::Quick => 4_000_000,
+            Tier::Thorough => 100_000_000,
         }
     }
 
@@ -387,10 +387,15 @@ impl World for C18 {
                 *w = 1 + rng.below(8) as u32;
             }
         }
+        // emptying operations stay rare, so that most of a history runs on a non-empty container
+        weights[0] = weights[0].min(1);
+        weights[5] = weights[5].min(1);
+        weights[4] = weights[4].min(2);
         // growth must be possible
         if weights[1] == 0 && weights[3] == 0 && weights[4] == 0 {
             weights[1] = 4;
         }
+        weights[1] = weights[1].max(2);
         let faults_enabled = rng.chance(6, 10);
         let leak_ok = faults_enabled && rng.chance(1, 2);
         let unwind_ok = faults_enabled && rng.chance(1, 2);
@@ -683,6 +688,25 @@ impl<'c, 'a> Exec<'c, 'a> {
 
     fn cmp_traces(&mut self, op: &'static str, sut: &[Obs], model: &[Obs]) -> bool {
         self.ctx.checked();
+        // what the system under test showed goes into the event log (as a digest)
+        let mut h = simcore::rng::Fnv::default();
+        for o in sut {
+            match o {
+                Obs::Item(Some(x)) => {
+                    h.u64(1);
+                    for v in x {
+                        h.u64(v.to_bits() as u64);
+                    }
+                }
+                Obs::Item(None) => h.u64(2),
+                Obs::Len(n) => h.u64(3 + ((*n as u64) << 8)),
+                Obs::Hint(a, b) => h.u64(4 + ((*a as u64) << 8) + ((b.unwrap_or(usize::MAX) as u64) << 32)),
+                Obs::Count(n) => h.u64(5 + ((*n as u64) << 8)),
+                Obs::NoRange => h.u64(6),
+                Obs::NotMutable => h.u64(7),
+            }
+        }
+        ev!(self.ctx, "  observed {op}: {} observations, digest {:016x}", sut.len(), h.finish());
         if sut.len() != model.len() {
             return self.ctx.fail(
                 &format!("trace:{op}"),
